@@ -18,7 +18,15 @@ Inductive event : Type :=
 | Pull (x : var) (i : nat)
 | End (x : var)
 | Get (o : Z) (a : nat)
-| Yield (row : list val).
+| Yield (row : list val)
+(* bookkeeping of the model, NOT observable (no user code runs): the scratch list of an Exists call.  [Frame n] opens the
+   call that started when the log had n entries, [Note n key] records that this call has handed out a result whose other
+   variables are bound as [key].  Every predicate below ignores them and [show_trace] drops them. *)
+| Frame (n : nat)
+| Note (n : nat) (key : list (option val))
+(* ... and the moment the SECOND pass of a Union (or_ over different variable sets) begins *)
+| Pass.
+Definition visible (e : event) : bool := match e with Frame _ | Note _ _ | Pass => false | _ => true end.
 
 Definition is_pull (x : var) (e : event) : bool := match e with Pull y _ => Nat.eqb x y | _ => false end.
 Definition is_end (x : var) (e : event) : bool := match e with End y => Nat.eqb x y | _ => false end.
@@ -51,15 +59,27 @@ Fixpoint upto_first (x : var) (t : list event) : list event :=
   match t with [] => [] | e :: t' => if is_pull x e then [] else e :: upto_first x t' end.
 Definition before (y x : var) (t : list event) : bool := 1 <=? npulls y (upto_first x t).
 
+(* [exempt x p]: x's domain was already exhausted when the second pass of some Union began (the first pass of an or_ over
+   different variable sets runs its loops to their ends before the second pass re-enumerates the right operand) *)
+Fixpoint exempt_scan (x : var) (e0 : bool) (t : list event) : bool :=
+  match t with
+  | [] => false
+  | Pass :: t' => e0 || exempt_scan x e0 t'
+  | e :: t' => exempt_scan x (e0 || is_end x e) t'
+  end.
+Definition exempt (x : var) (p : list event) : bool := exempt_scan x false p.
+
 (* at this point of the log, a domain is exhausted only if a variable used earlier has been pulled from at least twice
-   (its loop moved past its first element) *)
+   (its loop moved past its first element) -- or it is exempt (two-part bound for Union) *)
 Definition demand_at (p : list event) : Prop :=
-  forall x, ended x p = true -> exists y, before y x p = true /\ 2 <= npulls y p.
+  forall x, ended x p = true -> exempt x p = true \/ exists y, before y x p = true /\ 2 <= npulls y p.
 (* ... at every moment a result is handed out *)
 Definition demand_ok (t : list event) : Prop :=
   forall p r rest, t = p ++ Yield r :: rest -> demand_at p.
 
 (* ---------- executable companions ---------- *)
+Definition option_eq_dec {A} (d : forall a b : A, {a = b} + {a <> b}) (x y : option A) : {x = y} + {x <> y}.
+Proof. decide equality. Defined.
 Definition rows_eqb (a b : list (list val)) : bool :=
   if list_eq_dec (list_eq_dec val_eq_dec) a b then true else false.
 Definition event_eqb (e f : event) : bool :=
@@ -68,6 +88,9 @@ Definition event_eqb (e f : event) : bool :=
   | End x, End y => Nat.eqb x y
   | Get o a, Get p b => Z.eqb o p && Nat.eqb a b
   | Yield r, Yield q => if list_eq_dec val_eq_dec r q then true else false
+  | Frame n, Frame m => Nat.eqb n m
+  | Note n k, Note m j => Nat.eqb n m && (if list_eq_dec (option_eq_dec val_eq_dec) k j then true else false)
+  | Pass, Pass => true
   | _, _ => false
   end.
 Fixpoint prefixb (a b : list event) : bool :=
@@ -80,7 +103,8 @@ Definition nats_eqb (a b : list nat) : bool := if list_eq_dec Nat.eq_dec a b the
 Definition pulls_in_orderb (x : var) (t : list event) : bool :=
   nats_eqb (pulls_of x t) (seq 0 (length (pulls_of x t))).
 Definition demand_atb (p : list event) : bool :=
-  forallb (fun x => negb (ended x p) || existsb (fun y => before y x p && (2 <=? npulls y p)) (vars_of p)) (vars_of p).
+  forallb (fun x => negb (ended x p) || exempt x p
+                    || existsb (fun y => before y x p && (2 <=? npulls y p)) (vars_of p)) (vars_of p).
 Fixpoint demand_scan (pre t : list event) : bool :=
   match t with
   | [] => true
@@ -96,6 +120,14 @@ Proof.
   - rewrite andb_true_iff, Z.eqb_eq, Nat.eqb_eq. split; [intros [-> ->]; reflexivity | intros H; inversion H; auto].
   - destruct (list_eq_dec val_eq_dec row row0) as [->|N]; split; intro H; auto; try discriminate.
     inversion H; contradiction.
+  - rewrite Nat.eqb_eq. split; [intros ->; reflexivity | intros H; inversion H; auto].
+  - rewrite andb_true_iff, Nat.eqb_eq.
+    destruct (list_eq_dec (option_eq_dec val_eq_dec) key key0) as [->|N]; split.
+    + intros [-> _]; reflexivity.
+    + intros H; inversion H; auto.
+    + intros [_ H]; discriminate.
+    + intros H; inversion H; contradiction.
+  - split; reflexivity.
 Qed.
 
 Lemma prefixb_Prefix a : forall b, prefixb a b = true <-> Prefix a b.
@@ -118,31 +150,58 @@ Qed.
 Lemma npulls_pos_in_vars y p : 1 <= npulls y p -> In y (vars_of p).
 Proof.
   unfold npulls, vars_of. induction p as [|e p IH]; simpl; [lia|].
-  destruct e as [x i|x|o a|r]; simpl.
+  destruct e as [x i|x|o a|r|n|n k|]; simpl; try exact IH.
   - destruct (Nat.eqb_spec y x); simpl; intros H; [left; auto | right; auto].
   - intros H; right; auto.
-  - exact IH.
-  - exact IH.
 Qed.
 
 Lemma ended_in_vars x p : ended x p = true -> In x (vars_of p).
 Proof.
   unfold ended, vars_of. induction p as [|e p IH]; simpl; [discriminate|].
-  destruct e as [y i|y|o a|r]; simpl.
+  destruct e as [y i|y|o a|r|n|n k|]; simpl; try exact IH.
   - intros H. right; auto.
   - destruct (Nat.eqb_spec x y); simpl; intros H; [left; auto | right; auto].
-  - exact IH.
-  - exact IH.
 Qed.
+
+Lemma exempt_scan_iff x t : forall e0,
+  exempt_scan x e0 t = true <-> exists p1 p2, t = p1 ++ Pass :: p2 /\ (e0 || ended x p1) = true.
+Proof.
+  induction t as [|e t IH]; intros e0; simpl.
+  - split; [discriminate | intros (p1 & p2 & H & _); destruct p1; discriminate].
+  - assert (Hgen : is_end x e = is_end x e) by reflexivity.
+    destruct e as [y i|y|o a|r|n|n k|]; simpl;
+      try (rewrite IH; simpl; split;
+           [ intros (p1 & p2 & -> & H); eexists (_ :: p1), p2; split; [reflexivity | simpl; rewrite ?orb_false_r in *; exact H]
+           | intros (p1 & p2 & Heq & H); destruct p1 as [|e1 p1]; simpl in Heq; inversion Heq; subst;
+             exists p1, p2; split; [reflexivity | simpl in H; rewrite ?orb_false_r in *; exact H] ]).
+    + (* End y *)
+      rewrite IH. split.
+      * intros (p1 & p2 & -> & H). exists (End y :: p1), p2. split; [reflexivity|]. simpl.
+        rewrite orb_assoc. exact H.
+      * intros (p1 & p2 & Heq & H). destruct p1 as [|e1 p1]; simpl in Heq; inversion Heq; subst.
+        exists p1, p2. split; [reflexivity|]. simpl in H. rewrite orb_assoc in H. exact H.
+    + (* Pass *)
+      rewrite orb_true_iff, IH. split.
+      * intros [H|(p1 & p2 & -> & H)].
+        -- exists [], t. split; [reflexivity | simpl; now rewrite orb_false_r].
+        -- exists (Pass :: p1), p2. split; [reflexivity | exact H].
+      * intros (p1 & p2 & Heq & H). destruct p1 as [|e1 p1]; simpl in Heq; inversion Heq; subst.
+        -- left. simpl in H. now rewrite orb_false_r in H.
+        -- right. exists p1, p2. split; [reflexivity | exact H].
+Qed.
+Lemma exempt_iff x p : exempt x p = true <-> exists p1 p2, p = p1 ++ Pass :: p2 /\ ended x p1 = true.
+Proof. unfold exempt. rewrite exempt_scan_iff. simpl. reflexivity. Qed.
 
 Lemma demand_atb_iff p : demand_atb p = true <-> demand_at p.
 Proof.
   unfold demand_atb, demand_at. rewrite forallb_forall. split.
-  - intros H x Hx. specialize (H x (ended_in_vars _ _ Hx)). rewrite Hx in H. simpl in H.
+  - intros H x Hx. specialize (H x (ended_in_vars _ _ Hx)). rewrite Hx in H. cbn [negb orb] in H.
+    destruct (exempt x p); [left; reflexivity|]. right. cbn [orb] in H.
     apply existsb_exists in H. destruct H as [y [_ Hy]]. apply andb_true_iff in Hy. destruct Hy as [Hb Hn].
     exists y. split; [exact Hb | apply Nat.leb_le; exact Hn].
   - intros H x _. destruct (ended x p) eqn:Hx; cbn [negb orb]; [|reflexivity].
-    destruct (H x Hx) as [y [Hb Hn]]. apply existsb_exists. exists y. split.
+    destruct (H x Hx) as [He|[y [Hb Hn]]]; [rewrite He; reflexivity|].
+    apply orb_true_iff. right. apply existsb_exists. exists y. split.
     + apply npulls_pos_in_vars. lia.
     + apply andb_true_iff. split; [exact Hb | apply Nat.leb_le; exact Hn].
 Qed.
@@ -190,6 +249,7 @@ Fixpoint examined_scan (D : domains) (x : var) (pend : option Z) (t : list event
                   then examined_scan D x None t' else examined_scan D x pend t'
       | None => examined_scan D x None t'
       end
+  | Frame _ :: t' | Note _ _ :: t' | Pass :: t' => examined_scan D x pend t'
   end.
 (* x occurs in the condition, never bare (always below an attribute), and ranges over objects *)
 Definition bare (x : var) (e : opnd) : bool := match e with OVar y => Nat.eqb x y | _ => false end.
@@ -240,14 +300,21 @@ Fixpoint union_free (c : cond) : bool :=
   match c with
   | CCmp _ _ _ => true
   | CAnd l r | CElseIf l r => union_free l && union_free r
-  | CNot c => union_free c
-  | CUnion _ _ | CExists _ _ | CForAll _ _ => false
+  | CNot c | CExists _ c => union_free c
+  | CUnion _ _ | CForAll _ _ => false
   end.
-(* quantifier-free and no or_ over different variable sets (Union makes a second pass over the right operand, which the
-   single-pass reference enumerator does not).  Since 32abf51 the selected expressions are enumerated lazily, so the
-   selection needs no side condition any more (before: every selected variable had to be bound by the condition). *)
+Fixpoint forall_free (c : cond) : bool :=
+  match c with
+  | CCmp _ _ _ => true
+  | CAnd l r | CElseIf l r | CUnion l r => forall_free l && forall_free r
+  | CNot c | CExists _ c => forall_free c
+  | CForAll _ _ => false
+  end.
+(* F10: every condition without for_all (comparisons, and_, or_ of both kinds, not_, exists), ANY selection.  for_all is
+   outside: it materialises the candidate solutions of its condition for the first universal value before it hands
+   anything on, and it has to see the whole universal domain to confirm a result (Props/C10.v: C10_forall_eager). *)
 Definition f10 (q : query) : bool :=
-  match q_cond q with Some c => union_free c | None => true end.
+  match q_cond q with Some c => forall_free c | None => true end.
 
 (* ---------- printing for the correspondence check ---------- *)
 Definition show_event (e : event) : sx :=
@@ -256,8 +323,12 @@ Definition show_event (e : event) : sx :=
   | End x => SL [SZ 1%Z; SZ (Z.of_nat x)]
   | Get o a => SL [SZ 2%Z; SZ o; SZ (Z.of_nat a)]
   | Yield r => SL [SZ 3%Z; SL (map show_val r)]
+  | Frame n => SL [SZ 8%Z; SZ (Z.of_nat n)]
+  | Note n _ => SL [SZ 9%Z; SZ (Z.of_nat n)]
+  | Pass => SL [SZ 10%Z]
   end.
-Definition show_trace (t : list event) : sx := SL (map show_event t).
+(* what harness-supplied user code can observe *)
+Definition show_trace (t : list event) : sx := SL (map show_event (filter visible t)).
 
 (* the Spec applied to observed logs: [full] = log of pulling everything, [ks] = logs of pulling n = 0, 1, 2, ... results.
    0 = meets the Spec; otherwise a sum of: 1 rows of the n-stopped run are not the first n rows of the full run /
